@@ -4,7 +4,6 @@ package main
 // role-based anchor resolution helpers shared by all rules.
 
 import (
-	"regexp"
 	"bytes"
 	"fmt"
 	"go/ast"
@@ -14,6 +13,7 @@ import (
 	"go/types"
 	"os"
 	"path/filepath"
+	"regexp"
 	"sort"
 	"strconv"
 	"strings"
